@@ -34,8 +34,10 @@ TRUSTED = [
 ]
 ASSUMPTIONS = [
     "onset and Delay values are exact dyadic numbers (multiples of 1/8 s); the 1e-9 tolerance of "
-    "_indexed_dict_from_onsets, float parsing, n/a (NaN) onsets and Delay values without a conversion to seconds "
-    "(such groups stay in their row since the C07/C11 fixes) are not modelled",
+    "_indexed_dict_from_onsets, float parsing, n/a (NaN) onsets and non-numeric Delay values are not modelled "
+    "(Delay units without a conversion to seconds ARE: such a group stays in its row)",
+    "a row's basic-check issues enter the model as severities per non-empty HED cell (by construction of the "
+    "generated cells, cross-checked on every file against the validator's invalid_original_rows)",
     "structural group errors (ONSET_NO_DEF_TAG_FOUND, ONSET_TOO_MANY_DEFS, ONSET_DEF_UNMATCHED ...) come from "
     "DefValidator.validate_onset_offset and are outside C10; only OFFSET_BEFORE_ONSET, INSET_BEFORE_ONSET and "
     "ONSET_SAME_DEFS_ONE_ROW are compared",
@@ -113,12 +115,63 @@ def _init():
             v = HedTag(txt, schema).value_as_default_unit()
             if v != d / 8.0:
                 raise RuntimeError(f"{txt} -> {v!r}, expected {d / 8.0}")
-    _st.update(schema=schema, dd=dd, rec=rec, cache={})
+    for txt in delay_texts("X"):
+        if HedTag(txt, schema).value_as_default_unit() is not None:
+            raise RuntimeError(f"{txt} converts to seconds")
+    from hed.models import Sidecar
+    import io
+    sidecar = Sidecar(io.StringIO(sidecar_json()))
+    _st.update(schema=schema, dd=dd, rec=rec, cache={}, sidecar=sidecar)
     return _st
 
 
 def delay_texts(d):
+    if d == "X":        # legal time units without a conversion to seconds: the group stays in its row
+        return ["Delay/1 year", "Delay/2 month"]
     return [f"Delay/{d * 125} ms", f"Delay/{d / 8.0} s"]
+
+
+WARN_TAGS = {1: "Red/Crimsonish", 2: "red", 3: "Temperature/3"}     # TAG_EXTENDED, STYLE_WARNING, UNITS_MISSING
+# second HED-bearing column "cat" (categorical, through a sidecar; assembled AFTER the HED column, so it is the
+# last cell of a row whenever it is not n/a): key -> (HED text, groups it adds to the row, severities 1=ERROR 0=WARNING)
+CAT = {
+    "clean": ("Green", [], []),
+    "warn": ("Item/Someext", [], [0]),
+    "err": ("Badtag", [], [1]),
+    "on": ("(Def/C,Onset)", [[None, [0, ["C"], 0], 0]], []),
+    "off": ("(Def/c,Offset)", [[None, [1, ["c"], 0], 0]], []),
+    "in": ("(Inset,Def/C)", [[None, [2, ["C"], 2], 0]], []),
+    "onw": ("(Def/C,Onset,(Red/Crimsonish))", [[None, [0, ["C"], 0], 0]], [0]),
+    "dly": ("(Def/C,Delay/1.0 s,Offset)", [[8, [1, ["C"], 0], 1]], []),
+    "dx": ("(Def/C,Delay/1 year,Onset)", [[ "X", [0, ["C"], 0], 0]], []),
+}
+
+
+def sidecar_json():
+    return json.dumps({"cat": {"HED": {k: v[0] for k, v in CAT.items()}}})
+
+
+def all_groups(r):
+    """top-level groups of the assembled row: HED cell, then cat cell."""
+    return r["g"] + (CAT[r["cat"]][1] if r.get("cat") else [])
+
+
+def cell_sevs(r):
+    """severities (1 = ERROR, 0 = WARNING) of the basic-check issues of every non-empty HED cell, in column order."""
+    cells = []
+    if row_text(r) != "n/a":
+        c = [1] * bool(r.get("bad")) + [0] * bool(r.get("warn"))
+        c += [0 for g in r["g"] if g[1] is not None and g[1][2] & 8 and g[1][0] != 1]
+        cells.append(c)
+    if r.get("cat"):
+        cells.append(list(CAT[r["cat"]][2]))
+    return cells
+
+
+def row_is_failed(r):
+    """the row is left out of the bookkeeping: an ERROR among the issues of its last non-empty HED cell."""
+    cells = cell_sevs(r)
+    return bool(cells) and 1 in cells[-1]
 
 
 def def_text(name, expand):
@@ -141,7 +194,9 @@ def marker_text(m, delay=None, dform=0):
         parts.append(KINDS[kind])
     if delay is not None:
         parts.insert(1 if len(parts) > 1 else 0, delay_texts(delay)[dform])
-    if form & 4 and kind != 1:
+    if form & 8 and kind != 1:
+        parts.append("(Red/Crimsonish)")          # legal extension inside the inner group: TAG_EXTENDED warning
+    elif form & 4 and kind != 1:
         parts.append("(Green)")
     return "(" + ",".join(parts) + ")"
 
@@ -211,12 +266,22 @@ def row_text(r):
         parts.append("Badtag")
     if r.get("fill"):
         parts.append("Green")
+    if r.get("warn"):
+        parts.append(WARN_TAGS[r["warn"]])
     parts += [group_text(g) for g in r["g"]]
     return ",".join(parts) if parts else "n/a"
 
 
 def onset_text(u):
     return repr(u / 8.0)
+
+
+def table_of(rows, st):
+    """(columns, data, sidecar or None) -- the cat column only when some row uses it."""
+    if any(r.get("cat") for r in rows):
+        return (["onset", "cat", "HED"],
+                [[onset_text(r["on"]), r.get("cat") or "n/a", row_text(r)] for r in rows], st["sidecar"])
+    return ["onset", "HED"], [[onset_text(r["on"]), row_text(r)] for r in rows], None
 
 
 def impl_file(case):
@@ -231,16 +296,16 @@ def impl_file(case):
     rows = case["rows"]
     scratch = None
     try:
-        data = [[onset_text(r["on"]), row_text(r)] for r in rows]
+        cols, data, sidecar = table_of(rows, st)
         if case.get("file"):
             scratch = C.scratch_dir()
             path = os.path.join(scratch, "sub-01_task-x_events.tsv")
             with open(path, "w") as f:
-                f.write("onset\tHED\n" + "".join(f"{a}\t{b}\n" for a, b in data))
+                f.write("\t".join(cols) + "\n" + "".join("\t".join(x) + "\n" for x in data))
             src = path
         else:
-            src = pd.DataFrame(data, columns=["onset", "HED"]).astype(str)
-        issues = TabularInput(src).validate(st["schema"], extra_def_dicts=st["dd"])
+            src = pd.DataFrame(data, columns=cols).astype(str)
+        issues = TabularInput(src, sidecar=sidecar).validate(st["schema"], extra_def_dicts=st["dd"])
         out = []
         for i in issues:
             if i.get("_kind") in SUBKINDS:
@@ -271,8 +336,8 @@ def impl_seq(case):
             rec["perms"].clear()
             rec["ovs"].clear()
             rec["invalid"] = None
-            data = [[onset_text(r["on"]), row_text(r)] for r in rows]
-            tab = TabularInput(pd.DataFrame(data, columns=["onset", "HED"]).astype(str))
+            cols, data, sidecar = table_of(rows, st)
+            tab = TabularInput(pd.DataFrame(data, columns=cols).astype(str), sidecar=sidecar)
             # what BaseInput.validate does, but on the shared validator object
             issues = sv.validate(tab, tab._mapper.get_def_dict(st["schema"], st["dd"]), "f")
             iss = []
@@ -348,9 +413,11 @@ def ref_history(h):
 
 def split_entries(rows, order=None):
     idx = order if order is not None else list(range(len(rows)))
-    ents = [(rows[i]["on"], i, [g[1] for g in rows[i]["g"] if g[0] is None]) for i in idx]
+    def shifts(g):       # only a Delay that converts to seconds moves its group; year/month groups stay
+        return g[0] is not None and g[0] != "X"
+    ents = [(rows[i]["on"], i, [g[1] for g in all_groups(rows[i]) if not shifts(g)]) for i in idx]
     for i in idx:
-        ents += [(rows[i]["on"] + g[0], i, [g[1]]) for g in rows[i]["g"] if g[0] is not None]
+        ents += [(rows[i]["on"] + g[0], i, [g[1]]) for g in all_groups(rows[i]) if shifts(g)]
     return ents
 
 
@@ -377,7 +444,7 @@ def ref_file(rows, perms=None):
             tps[-1][2].extend(ms)
         else:
             tps.append([t, i, list(ms)])
-    bad = {i for i, r in enumerate(rows) if r.get("bad")}
+    bad = {i for i, r in enumerate(rows) if row_is_failed(r)}      # ERROR in the last HED cell; warnings do not count
     hist = [(i, ms) for _, i, ms in tps if i not in bad]
     exp = ref_history([ms for _, ms in hist])
     iss = sorted([k, i, p, n] for (i, _), (_, il) in zip(hist, exp) for k, p, n in il)
@@ -402,8 +469,9 @@ def rows_sx(rows):
     out = []
     for r in rows:
         gs = " ".join("(%s %s)" % ("N" if g[0] is None else g[0], "N" if g[1] is None else marker_sx(g[1]))
-                      for g in r["g"])
-        out.append("(%d %d (%s))" % (r["on"], 1 if r.get("bad") else 0, gs))
+                      for g in all_groups(r))
+        cells = " ".join("(" + " ".join(str(x) for x in c) + ")" for c in cell_sevs(r))
+        out.append("(%d (%s) (%s))" % (r["on"], cells, gs))
     return " ".join(out)
 
 
@@ -412,12 +480,7 @@ def model_line(case, perms=(None, None)):
         return "(S %d %s)" % (FIXED, " ".join("(" + rows_sx(f) + ")" for f in case["files"]))
     if case["t"] == "H":
         return "(H " + " ".join("(" + " ".join(marker_sx(m) for m in tp if m is not None) + ")" for tp in case["h"]) + ")"
-    rows = []
-    for r in case["rows"]:
-        gs = " ".join("(%s %s)" % ("N" if g[0] is None else g[0], "N" if g[1] is None else marker_sx(g[1]))
-                      for g in r["g"])
-        rows.append("(%d %d (%s))" % (r["on"], 1 if r.get("bad") else 0, gs))
-    return "(F %d %s %s %s)" % (FIXED, perm_sx(perms[0]), perm_sx(perms[1]), " ".join(rows))
+    return "(F %d %s %s %s)" % (FIXED, perm_sx(perms[0]), perm_sx(perms[1]), rows_sx(case["rows"]))
 
 
 def sx_name(x):
@@ -493,19 +556,65 @@ def gen_random_files(rng, n, malformed=0.0, unsorted=False):
         t = rng.choice([0, 4, 8])
         rows = []
         pdelay = rng.choice([0.0, 0.15, 0.3, 0.5])
+        pwarn = rng.choice([0.0, 0.0, 0.3, 0.6])         # legal rows that draw warnings
+        pcat = rng.choice([0.0, 0.0, 0.0, 0.4])          # a second HED-bearing column
         for _ in range(rng.randint(1, 8)):
             if rows and rng.random() < 0.55:
                 t += rng.choice([2, 4, 4, 8, 12])
             gs = []
             for _ in range(rng.choice([0, 1, 1, 1, 2, 2, 3])):
                 m = rand_marker(rng, names, malformed)
-                d = rng.choice(DELAYS) if rng.random() < pdelay else None
+                if m is not None and len(m[1]) == 1 and rng.random() < pwarn / 2:
+                    m[2] |= 8                            # extension inside the marker's inner group
+                d = rng.choice(DELAYS + ["X", "X"]) if rng.random() < pdelay else None
                 gs.append([d, m, rng.randrange(2)])
-            rows.append({"on": t, "g": gs, "fill": int(rng.random() < 0.2),
-                         "bad": int(rng.random() < malformed * 0.5)})
+            row = {"on": t, "g": gs, "fill": int(rng.random() < 0.2),
+                   "bad": int(rng.random() < malformed * 0.5)}
+            if rng.random() < pwarn:
+                row["warn"] = rng.choice([1, 2, 3])
+            if rng.random() < pcat:
+                row["cat"] = rng.choice(sorted(CAT) if malformed else [k for k in sorted(CAT) if k != "err"])
+            rows.append(row)
         if unsorted and len(rows) > 1:
             rng.shuffle(rows)
         out.append({"t": "F", "rows": rows, "file": int(rng.random() < 0.05)})
+    return out
+
+
+def focused_files():
+    """Two families that must be dense in every run.
+    (a) a legal row that only draws a WARNING carries the Onset / Offset that a later Inset / Offset depends on;
+    (b) a row with several Delay groups of which some have a unit without a conversion to seconds."""
+    out = []
+    on_a, off_a, in_a = [0, ["A"], 0], [1, ["a"], 0], [2, ["A"], 2]
+    probes = [{"on": 40, "g": [[None, in_a, 0]]}, {"on": 48, "g": [[None, off_a, 0]]},
+              {"on": 56, "g": [[None, [1, ["A"], 0], 0]]}]
+    for kind in (0, 1):
+        for wv in ({"warn": 1}, {"warn": 2}, {"warn": 3}, {"form8": 1}, {"cat": "warn"}, {"cat": "onw"},
+                   {"cat": "clean", "warn": 1}, {"cat": "clean", "bad": 1}, {"cat": "err"}):
+            for delay in (None, 8, "X"):
+                m = [kind, ["A"], 4 | (8 if wv.get("form8") and kind == 0 else 0)]
+                row = {"on": 16, "g": [[delay, m, 1]]}
+                row.update({k: v for k, v in wv.items() if k != "form8"})
+                if wv.get("form8") and kind == 1:
+                    row["g"].append([None, [0, ["B/1"], 12], 0])     # the warning sits in a sibling marker group
+                pre = [{"on": 8, "g": [[None, on_a, 0]]}] if kind == 1 else []
+                out.append({"t": "F", "file": 0, "rows": pre + [row] + probes})
+    import itertools as it
+    for ds in it.permutations(["X", 8, None]):
+        for kinds in it.product((0, 1), repeat=3):
+            gs = [[d, [k, [n], 0], j % 2] for j, (d, k, n) in enumerate(zip(ds, kinds, ("A", "B/1", "C")))]
+            rows = [{"on": 8, "g": [[None, [0, ["A"], 0], 0], [None, [0, ["b/1"], 0], 0], [None, [0, ["c"], 0], 0]]},
+                    {"on": 16, "g": gs},
+                    {"on": 20, "g": [[None, [2, ["a"], 0], 0], [None, [2, ["B/1"], 0], 0], [None, [2, ["C"], 0], 0]]},
+                    {"on": 32, "g": [[None, [1, ["A"], 0], 0], [None, [1, ["b/1"], 0], 0], [None, [1, ["c"], 0], 0]]}]
+            out.append({"t": "F", "file": 0, "rows": rows})
+            out.append({"t": "F", "file": 0, "rows": rows[1:]})
+    for ds in it.product(["X", 4, 12], repeat=2):          # two Delay groups of one name: year first / seconds first
+        rows = [{"on": 8, "g": [[ds[0], [0, ["A"], 0], 0], [ds[1], [1, ["A"], 0], 1]]},
+                {"on": 10, "g": [[None, [2, ["a"], 0], 0]]}, {"on": 16, "g": [[None, [2, ["a"], 0], 0]]},
+                {"on": 24, "g": [[None, [1, ["a"], 0], 0]]}]
+        out.append({"t": "F", "file": 0, "rows": rows})
     return out
 
 
@@ -644,7 +753,7 @@ def oracle(case, r, res):
         return True
     if not is_sorted_file(case):
         return False
-    has_bad = any(x.get("bad") for x in case["rows"])
+    has_bad = any(row_is_failed(x) for x in case["rows"])
     exp_iss, exp_open = ref_file(case["rows"])
     if r["issues"] != exp_iss or sorted(r["state"] or []) != exp_open:
         perms = [p for p, _ in r["perms"]]
@@ -722,7 +831,7 @@ def nontrivial(c):
     if c["t"] == "H":
         ms = [m for tp in c["h"] for m in tp if m is not None]
     else:
-        ms = [g[1] for r in c["rows"] for g in r["g"] if g[1] is not None]
+        ms = [g[1] for r in c["rows"] for g in all_groups(r) if g[1] is not None]
     return len(ms) >= 2 and any(m[0] != 0 for m in ms)
 
 
@@ -771,7 +880,7 @@ def work(task):
             else:
                 mm = model_file(m)
                 ok = mm.get("issues") == r["issues"] and mm.get("state") == r["state"]
-                want_inv = sorted(i for i, x in enumerate(c["rows"]) if x.get("bad"))
+                want_inv = sorted(i for i, x in enumerate(c["rows"]) if row_is_failed(x))
                 if r["invalid"] != want_inv:
                     ok = False
                     mm["invalid_rows_expected"] = want_inv
@@ -808,10 +917,15 @@ def work(task):
                 fl[k - 1]["state"] and fl[k]["issues"] for k in range(1, len(fl)))
             continue
         if c["t"] == "F":
-            h["files_with_delay"] += any(g[0] is not None for x in c["rows"] for g in x["g"])
+            h["files_with_delay"] += any(g[0] is not None for x in c["rows"] for g in all_groups(x))
+            h["files_with_unconvertible_delay"] += any(g[0] == "X" for x in c["rows"] for g in all_groups(x))
+            h["files_with_warning_only_rows"] += any(0 in sum(cell_sevs(x), []) and not row_is_failed(x) for x in c["rows"])
+            h["files_with_second_hed_column"] += any(x.get("cat") for x in c["rows"])
             h["files_with_equal_onsets"] += len({x["on"] for x in c["rows"]}) < len(c["rows"])
             h["files_unsorted"] += not is_sorted_file(c)
-            h["files_with_failed_rows"] += any(x.get("bad") for x in c["rows"])
+            h["files_with_failed_rows"] += any(row_is_failed(x) for x in c["rows"])
+            h["files_with_error_only_in_earlier_cell"] += any(1 in sum(cell_sevs(x), []) and not row_is_failed(x)
+                                                               for x in c["rows"])
             h["unstable_tie_orders_seen"] += any(not s for _, s in r.get("perms", []))
             h["via_tsv_file"] += bool(c.get("file"))
         else:
@@ -844,9 +958,9 @@ def run(tier, seed, res, model_ok=True, proof_ok=True):
     small = quick and os.environ.get("VERIF_C10_BUDGET") == "small"
     specs, exh_rule = exh_specs("small" if small else tier)
     nh = (1000 if small else 4000 if quick else 40000) * wide
-    nf = (1500 if small else 5000 if quick else 60000) * wide
+    nf = (1500 if small else 3500 if quick else 60000) * wide
     rand_h = gen_random_histories(rng, nh, 0.0) + gen_random_histories(rng, nh // 3, 0.25)
-    files = (exhaustive_files() + gen_random_files(rng, nf, 0.0) + gen_random_files(rng, nf // 4, 0.3)
+    files = (exhaustive_files() + focused_files() + gen_random_files(rng, nf, 0.0) + gen_random_files(rng, nf // 4, 0.3)
              + gen_random_files(rng, nf // 5, 0.1, unsorted=True))
     seqs = seq_cases(rng, (150 if small else 500 if quick else 6000) * wide)
     exe = C.build_driver("c10") if model_ok else None
@@ -888,8 +1002,9 @@ def run(tier, seed, res, model_ok=True, proof_ok=True):
                 f"object (a file leaving scopes open, then files starting with Offset/Inset of those names; each file "
                 f"compared with the model/statement run from the empty state) "
                 f"+ {len(files)} event files through TabularInput.validate (every 1-2 marker layout, "
-                "random rows with equal onsets and Delay groups, a malformed stream with failed rows, an unsorted "
-                "stream); non-trivial = at least two markers, not all Onset; distinct = exhaustive cases counted "
+                "random rows with equal onsets, Delay groups incl. units without a conversion to seconds, legal rows that "
+                "draw warnings, a second HED column through a sidecar; a malformed stream with failed rows, an "
+                "unsorted stream); non-trivial = at least two markers, not all Onset; distinct = exhaustive cases counted "
                 "once by construction + distinct hashes of the generated cases outside the exhaustive domain",
         "samples": samples,
         "histogram": dict(sorted(hist.items())),
